@@ -16,6 +16,12 @@ Theorem C15_integrate_enumerates : forall tm objs tidx,
 Proof. exact integrate_enumerates. Qed.
 Print Assumptions C15_integrate_enumerates.
 
+(* the well-formedness hypothesis is decided by the boolean that the harness
+   evaluates on every input *)
+Theorem C15_wf_check_sound : forall objs, wf_objs_b objs = true -> wf_objs objs.
+Proof. exact wf_objs_b_sound. Qed.
+Print Assumptions C15_wf_check_sound.
+
 (* The code as it is computes the same list whenever it does not raise, some object
    has a block table and every contracted index sits on an object with a table. *)
 Theorem C15_impl_agrees : forall tm objs tidx R,
@@ -45,3 +51,143 @@ Theorem C15_impl_refuted_repeated_index :
     integrate_objs false tm objs tidx = Err c /\ exists g, good tm objs tidx g.
 Proof. exact impl_refuted_repeated_index. Qed.
 Print Assumptions C15_impl_refuted_repeated_index.
+
+(* ------------------------------------------------------------------ *)
+From Coq Require Import ZArith QArith.
+From Coq Require String Ascii.
+From ADC Require Import Models.SpinValue Models.SpinDfs Models.SpinBlocks Models.SpinExamples.
+
+(* Value of the integrated term.  For every scalar ring, every tensor model whose
+   spin-orbital ranges are alpha ++ beta, every term of spin orbitals whose tensors
+   vanish outside the allowed blocks of their objects, every target-spin map tm and
+   every assignment r of the targets to spin orbitals of the requested spins: the
+   spin-orbital value of the term equals the sum, over the enumerated spin
+   assignments m, of the value of the term with every index x renamed to x_{m(x)}
+   (which ranges over the alpha resp. beta orbitals only). *)
+Theorem C15_integrate_value :
+  forall (S : Scalar) (T : tmodel S) (ospin : nat -> sp),
+  (forall s, rng T s NoSpin = rng T s Alpha ++ rng T s Beta) ->
+  (forall s o, In o (rng T s Alpha) -> ospin o = SA) ->
+  (forall s o, In o (rng T s Beta) -> ospin o = SB) ->
+  forall (tbl : atom -> option (list block)) (tg : list index) (tm : tmap),
+  (forall x, In x tg <-> tlookup tm x <> None) ->
+  forall (t : term) (tidx : list index), NoDup tidx -> (forall x, In x tidx <-> In x (term_idx t)) ->
+  wf_objs (objs_of tbl (tfacs t)) ->
+  (forall x, In x (term_idx t) -> ispin x = NoSpin) ->
+  vanishes S T ospin tbl (tfacs t) ->
+  forall r : env,
+  (forall x s, In x tidx -> tlookup tm x = Some s -> ospin (r x) = s) ->
+  (forall x, In x (tg ++ term_idx t) -> ispin x = NoSpin /\ iuid x = 0%N) ->
+  exists R, integrate_objs true tm (objs_of tbl (tfacs t)) tidx = Ok R /\
+    eval_term S T tg r t =
+    ksum R (fun m => eval_term S T (map (lab m) tg) (fun y => r (unspin y)) (ren_term (lab m) t)).
+Proof. exact integrate_value. Qed.
+Print Assumptions C15_integrate_value.
+
+(* No admissible spin assignment: the value on the requested block is zero. *)
+Theorem C15_no_assignment_zero :
+  forall (S : Scalar) (T : tmodel S) (ospin : nat -> sp),
+  (forall s, rng T s NoSpin = rng T s Alpha ++ rng T s Beta) ->
+  (forall s o, In o (rng T s Alpha) -> ospin o = SA) ->
+  (forall s o, In o (rng T s Beta) -> ospin o = SB) ->
+  forall (tbl : atom -> option (list block)) (tg : list index) (tm : tmap),
+  (forall x, In x tg <-> tlookup tm x <> None) ->
+  forall (t : term) (tidx : list index), NoDup tidx -> (forall x, In x tidx <-> In x (term_idx t)) ->
+  wf_objs (objs_of tbl (tfacs t)) ->
+  (forall x, In x (term_idx t) -> ispin x = NoSpin) ->
+  vanishes S T ospin tbl (tfacs t) ->
+  forall r : env,
+  (forall x s, In x tidx -> tlookup tm x = Some s -> ospin (r x) = s) ->
+  (forall g, ~ good tm (objs_of tbl (tfacs t)) tidx g) -> eval_term S T tg r t = k0 S.
+Proof. exact no_good_zero. Qed.
+Print Assumptions C15_no_assignment_zero.
+
+(* Expansion of the antisymmetrised integrals, pointwise in the assignment of
+   orbitals (partial: the lifting through the sums over contracted indices, i.e.
+   that the expanded terms have the contracted indices of the original term, is
+   not proved; it is checked per case by the syntactic comparison of the harness). *)
+Theorem C15_eri_expand_value_partial :
+  forall (S : Scalar) (T : tmodel S) (ospin : nat -> sp),
+  (forall p q r s : nat,
+     tv T KAnti (String.String (Ascii.Ascii false true true false true false true false) String.EmptyString)
+        1%Z [p; q] [r; s] =
+     kadd S (kmul S (kmul S (dsp S ospin p r) (dsp S ospin q s))
+               (tv T KSym (String.String (Ascii.Ascii false true true false true true true false) String.EmptyString)
+                   1%Z [p; r] [q; s]))
+            (kopp S (kmul S (kmul S (dsp S ospin p s) (dsp S ospin q r))
+               (tv T KSym (String.String (Ascii.Ascii false true true false true true true false) String.EmptyString)
+                   1%Z [p; s] [q; r])))) ->
+  forall (rho : env) (u : term) (l : list term),
+  lab_ok ospin rho -> (forall f, In f (tfacs u) -> eri_ok f) ->
+  expand_eri_term u = Ok l -> term_val S T rho u = ksum l (fun u' => term_val S T rho u').
+Proof. exact eri_expand_value. Qed.
+Print Assumptions C15_eri_expand_value_partial.
+
+(* Restricted reference: renaming every beta index to the alpha index of the same
+   name keeps the value when alpha and beta tensors coincide. *)
+Theorem C15_restricted_value :
+  forall (S : Scalar) (T : tmodel S) (alpha_of : nat -> nat),
+  (forall s, rng T s Alpha = map alpha_of (rng T s Beta)) ->
+  (forall s o, In o (rng T s Alpha) -> alpha_of o = o) ->
+  forall (tg0 : list index) (u : term),
+  (forall x, In x (tg0 ++ term_idx u) -> ispin x <> NoSpin) ->
+  inj_on to_alpha (tg0 ++ term_idx u) ->
+  (forall rho : env, (forall x, In x (tg0 ++ term_idx u) -> In (rho x) (irange S T x)) ->
+     term_val S T (fun x => alpha_of (rho x)) u = term_val S T rho u) ->
+  forall rho rho' : env,
+  (forall y, In y tg0 -> In (rho y) (irange S T y)) ->
+  (forall y, In y (tg0 ++ term_idx u) -> rho' (to_alpha y) = alpha_of (rho y)) ->
+  eval_term S T (map to_alpha tg0) rho' (ren_term to_alpha u) = eval_term S T tg0 rho u.
+Proof. exact restricted_value. Qed.
+Print Assumptions C15_restricted_value.
+
+(* _has_valid_combination returns True exactly if one spin map can be chosen from
+   every object without giving an index two spins. *)
+Theorem C15_dfs_sound : forall ls v r, hvc ls v = Some r ->
+  exists ms, choice ms ls /\ ok_chain v ms /\ r = fold_left sunion ms v.
+Proof. exact hvc_sound. Qed.
+Print Assumptions C15_dfs_sound.
+Theorem C15_dfs_complete : forall ls v ms, ls <> [] -> choice ms ls -> ok_chain v ms -> hvc ls v <> None.
+Proof. exact hvc_complete. Qed.
+Print Assumptions C15_dfs_complete.
+(* ... and a consistent choice is the same as a common spin function *)
+Theorem C15_dfs_choice_is_spin_function : forall ms v,
+  (exists g, agrees v g) -> Forall (fun m => exists g, agrees m g) ms ->
+  (ok_chain v ms <-> exists g, agrees v g /\ Forall (fun m => agrees m g) ms).
+Proof. exact chain_iff_common. Qed.
+Print Assumptions C15_dfs_choice_is_spin_function.
+
+(* A block that allowed_spin_blocks(expr, target) does not report admits, for no term
+   of the expression, a spin function that gives the targets the block's spins and
+   puts every object on an allowed block ... *)
+Theorem C15_block_not_reported : forall it tgt e L bl,
+  expr_allowed_blocks it tgt e = Ok L -> length bl = length tgt -> ~ In bl L ->
+  forall atoms, In atoms e -> exists objs, sobjs_of it atoms = Ok objs /\
+    forall g, ~ block_fun_ok objs bl tgt g.
+Proof. exact block_not_reported. Qed.
+Print Assumptions C15_block_not_reported.
+
+(* ... hence every term of the expression is identically zero on that block. *)
+Theorem C15_unreported_block_zero :
+  forall (S : Scalar) (T : tmodel S) (ospin : nat -> sp),
+  (forall s, rng T s NoSpin = rng T s Alpha ++ rng T s Beta) ->
+  (forall s o, In o (rng T s Alpha) -> ospin o = SA) ->
+  (forall s o, In o (rng T s Beta) -> ospin o = SB) ->
+  forall it tgt e L bl (t : term) (r : env),
+  expr_allowed_blocks it tgt e = Ok L -> length bl = length tgt -> ~ In bl L -> NoDup tgt ->
+  In (term_atoms t) e ->
+  wf_objs (objs_of (tbl_of it) (tfacs t)) ->
+  (forall x, In x (term_idx t) -> ispin x = NoSpin) ->
+  vanishes S T ospin (tbl_of it) (tfacs t) ->
+  (forall s x, In (s, x) (combine bl tgt) -> ospin (r x) = s) ->
+  eval_term S T tgt r t = k0 S.
+Proof. exact unreported_block_zero. Qed.
+Print Assumptions C15_unreported_block_zero.
+
+(* the hypotheses are satisfiable: MP2-energy term on a four-orbital model over Qc *)
+Example C15_hypotheses_satisfiable : forall r : env,
+  exists R, integrate_objs true [] (objs_of (tbl_of []) (tfacs mp2)) (atoms_idx (term_atoms mp2)) = Ok R /\
+    length R = 6 /\
+    eval_term QcS15 T15 [] r mp2 =
+    ksum R (fun m => eval_term QcS15 T15 (map (lab m) []) (fun y => r (unspin y)) (ren_term (lab m) mp2)).
+Proof. exact ex_integrate_value. Qed.
